@@ -51,6 +51,8 @@ enum Kind1 {
     GradualDifficulty(u8, u8),
     GradualPerformance(u8, u8),
     ReuseBuilders(u8),
+    /// the same map under a different conversion-relevant mod: mania by reference with the given key count
+    ManiaKeys(u8),
 }
 
 #[derive(Clone, Copy, Debug, PartialEq, Eq)]
@@ -99,6 +101,11 @@ fn all_ops(specs: &[MapSpec], rich: bool) -> Vec<Op> {
             }
         }
         v.push(Op { text: t, kind: Kind1::ReuseBuilders(s.mode) });
+        if s.mode == 0 {
+            for k in if rich { vec![1u8, 4, 7, 9] } else { vec![4u8, 7] } {
+                v.push(Op { text: t, kind: Kind1::ManiaKeys(k) });
+            }
+        }
     }
     v
 }
@@ -154,6 +161,16 @@ impl World {
                     v.push(x);
                 }
                 format!("{v:?}")
+            }
+            Kind1::ManiaKeys(k) => {
+                let bits = settings::KEY_BITS[usize::from(k) - 1];
+                let mods = GameMods::from(bits);
+                let conv = map.convert_ref(gen::game_mode(3), &mods).map(std::borrow::Cow::into_owned);
+                let d = Difficulty::new().mods(bits);
+                let a = api::difficulty(&d, map, 3);
+                let st = api::strains(&d, map, 3);
+                let p = Performance::new(map).mods(bits).try_mode(gen::game_mode(3)).ok().map(|p| p.accuracy(98.0).calculate());
+                format!("{conv:?} {a:?} {st:?} {p:?}")
             }
             Kind1::ReuseBuilders(_) => {
                 // the same Difficulty value called twice, a cloned Performance calculated twice
